@@ -13,8 +13,8 @@ W = f"/tmp/seedeval-{pid}-{n}"
 env = dict(os.environ, CARGO_TARGET_DIR=f"/tmp/seedeval-target")   # shared target across evaluations (incremental)
 
 
-def sh(cmd, cwd=None, timeout=3600):
-    r = subprocess.run(cmd, shell=True, cwd=cwd, env=env, stdout=subprocess.PIPE, stderr=subprocess.STDOUT, text=True, timeout=timeout)
+def sh(cmd, cwd=None, timeout=3600, use_env=True):
+    r = subprocess.run(cmd, shell=True, cwd=cwd, env=env if use_env else dict(os.environ), stdout=subprocess.PIPE, stderr=subprocess.STDOUT, text=True, timeout=timeout)
     return r.returncode, r.stdout
 
 
@@ -59,7 +59,7 @@ if result["confirmed"] or "--force" in sys.argv:
         result["checks"] = {}
         for c in checks:
             t = time.time()
-            rc, out = sh(f"./check {c} --tier quick", "/verif", timeout=2400)
+            rc, out = sh(f"./check {c} --tier quick", "/verif", timeout=2400, use_env=False)
             result["checks"][c] = {"exit": rc, "violations": re.findall(r"^VIOLATION .*", out, re.M)[:5],
                                    "wall_s": round(time.time() - t), "tail": out[-600:] if rc not in (0, 1) else ""}
     finally:
